@@ -26,10 +26,26 @@ var Excluded = [][2]string{
 type Entry struct {
 	Path string
 	Val  uint64
+	// Sync: the entry lies inside a field whose type comes from package sync
+	// or sync/atomic (the state of a Once, Mutex, atomic.Value ...).
+	Sync bool
 }
 
 // Fingerprint is a flattened deep fingerprint of everything reachable from a value.
 type Fingerprint []Entry
+
+// Synchronised reports whether the difference between two fingerprints
+// involves the state of a sync / sync/atomic value: the mutated struct then
+// carries its own synchronisation (a Once- or mutex-guarded lazy field), which
+// is race-free and deterministic and therefore within the property.
+func (f Fingerprint) Synchronised(o Fingerprint) bool {
+	for i := range f {
+		if i < len(o) && f[i].Path == o[i].Path && f[i].Val != o[i].Val && (f[i].Sync || o[i].Sync) {
+			return true
+		}
+	}
+	return false
+}
 
 // Diff returns the first path at which two fingerprints differ ("" if equal).
 func (f Fingerprint) Diff(o Fingerprint) string {
@@ -71,7 +87,8 @@ func Take(v interface{}) Fingerprint {
 	var out Fingerprint
 	visited := map[uintptr]bool{}
 	var walk func(rv reflect.Value, path string, depth int)
-	leaf := func(path, s string) { out = append(out, Entry{path, hashString(s)}) }
+	inSync := 0
+	leaf := func(path, s string) { out = append(out, Entry{path, hashString(s), inSync > 0}) }
 	walk = func(rv reflect.Value, path string, depth int) {
 		if len(out) > 200000 || depth > 80 {
 			return
@@ -115,7 +132,21 @@ func Take(v interface{}) Fingerprint {
 				}
 				f := rv.Field(i)
 				f = reflect.NewAt(f.Type(), unsafe.Pointer(f.UnsafeAddr())).Elem()
+				syncField := false
+				if pp := ft.Type.PkgPath(); pp == "sync" || pp == "sync/atomic" {
+					syncField = true
+				} else if ft.Type.Kind() == reflect.Ptr {
+					if pp := ft.Type.Elem().PkgPath(); pp == "sync" || pp == "sync/atomic" {
+						syncField = true
+					}
+				}
+				if syncField {
+					inSync++
+				}
 				walk(f, path+"."+ft.Name, depth+1)
+				if syncField {
+					inSync--
+				}
 			}
 		case reflect.Slice:
 			if rv.IsNil() {
